@@ -26,7 +26,7 @@ META = {
                    'between steps and inside an intercepted body) is placed at every interception step, on instance and '
                    'class-level operations, crossed with metadata extractors that succeed, raise or return junk, under a virtual '
                    'clock that the workload advances; metadata of every saved recording is compared with a model of the run and '
-                   'the default skip-incomplete lookup is checked.  Placement enumeration over sampled programs. Also: an earlier run (and a replay) of the same decorated operation on the same recorder, operations declared on a decorated base class, invocation from inside an except handler, recording switched off while the operation is in flight. An earlier run on a sibling class that inherits the operation; a host whose local time is not UTC. A worker thread still sending an output while the operation ends (two placed pre-emptions).'),
+                   'the default skip-incomplete lookup is checked.  Placement enumeration over sampled programs. Also: an earlier run (and a replay) of the same decorated operation on the same recorder, operations declared on a decorated base class, invocation from inside an except handler, recording switched off while the operation is in flight. An earlier run on a sibling class that inherits the operation; a host whose local time is not UTC. A worker thread still sending an output while the operation ends (two placed pre-emptions). Operations ending in built-in exception classes (AssertionError, KeyError, StopIteration ...) and operations that return an error-shaped value.'),
     'level_note': 'Trusted: virtual clock seam (tape_recorder.time / datetime rebound), the termination model in this file. Clock never steps backwards.',
     'rule': ('evaluation = one (program, termination placement, extractor behaviour) recorded on one recorder together with two '
              'fixed companion runs (one complete, one interrupted) so that the default lookup has something to separate; '
